@@ -245,6 +245,9 @@ def engine_typestate(ctx: Ctx, f, rule="R05.4"):
     for s in exits:
         if s[0] == "STOPPING" and not s[1]:
             obs.append(ctx.ob(rule, f, f.node, status=VIOLATION, detail="a path on which the GSC was observed true leaves run_metaepoch without `_active = False`", witness=witness_path(cfg, parent, cfg.exit.id, s), construct="exit-after-gsc-true"))
+        if s[0] == "DIRTY" and not s[1]:
+            # one-shot engines deactivate unconditionally; every other engine consults the GSC after its last evaluation
+            obs.append(ctx.ob(rule, f, f.node, status=VIOLATION, detail="a path leaves run_metaepoch after an evaluation without consulting the GSC and without deactivating the deme (the deme would never observe the stop condition)", witness=witness_path(cfg, parent, cfg.exit.id, s), construct="exit-dirty"))
     return obs, eval_nodes
 
 
